@@ -156,11 +156,14 @@ def corr_engine(pid, tier, seed, feat, nq, nt, ops=30, dflags="", oracle_props=N
         args += " -io %d" % io
     s, hist = gen_scripts("enginegen", seed, n, rundir, extra=args)
     scen.extend(s)
-    for i, sc in enumerate(scen):
-        sc[0] = "S %d" % i
+    if "-variants" not in extra:
+        for i, sc in enumerate(scen):
+            sc[0] = "S %d" % i
     r = run_scripts(pid, rundir, scen, dflags=dflags)
-    idx = {str(i): sc for i, sc in enumerate(scen)}
+    idx = {sc[0].split()[1]: sc for sc in scen}
     props_ = oracle_props or [pid]
+    if "-variants" in extra:
+        r["oracle"].extend(cross_variant_oracle(r["traces"]))
     oracle = [o for o in r["oracle"] if o.split()[1] in props_]
     nontriv = nontrivial_count(scen, lambda sc: sum(1 for l in sc if l.startswith("E put") or l.startswith("E bput")) >= 3)
     sample = scen[len(scen) // 2] if scen else []
@@ -169,6 +172,41 @@ def corr_engine(pid, tier, seed, feat, nq, nt, ops=30, dflags="", oracle_props=N
             "samples": [sample[:25]], "hist": hist, "observations_compared": r["checked"],
             "mismatches": r["mismatches"], "oracle": oracle, "errors": r["errors"], "scen_index": idx,
             "extra_oracle_lines_other_properties": len(r["oracle"]) - len(oracle)}
+
+
+def cross_variant_oracle(traces, pid="C14"):
+    """Lock-step variants "S n.a", "S n.b", ... ran the same operations under different
+    configurations: their results (events, sizes, layouts aside) must be identical."""
+    groups = {}
+    for tp in traces:
+        if not os.path.exists(tp):
+            continue
+        cur = None
+        for l in read_lines(tp):
+            if l.startswith("S "):
+                cur = l.split()[1]
+                groups.setdefault(cur.split(".")[0], {})[cur] = []
+                continue
+            if cur is None or not l.startswith("E ") or " => " not in l:
+                continue
+            f = l.split()
+            if f[1] in ("open", "close", "stat", "files", "pos", "batch", "merge", "backup", "dir"):
+                continue
+            res = l.split(" => ", 1)[1].split(" ;; ")[0].strip()
+            groups[cur.split(".")[0]][cur].append((f[1], res))
+    out = []
+    for g, variants in groups.items():
+        names = sorted(variants)
+        for other in names[1:]:
+            a, b = variants[names[0]], variants[other]
+            if len(a) != len(b):
+                out.append("X %s scenario=%s transcript lengths differ from variant %s: %d vs %d" % (pid, names[0], other, len(a), len(b)))
+                continue
+            for i, (x, y) in enumerate(zip(a, b)):
+                if x != y:
+                    out.append("X %s scenario=%s result %d differs between configurations (%s): %s %s vs %s" % (pid, names[0], i, other, x[0], x[1], y[1]))
+                    break
+    return out
 
 
 NOEV = "-noevents -skip files,stat,pos"
@@ -187,6 +225,18 @@ REGISTRY = {
         "assumptions": ["theorems are about the record-level engine model; the byte-level reader/writer round trip they rest on is C11",
                         "the restart theorem covers merge-free histories; merges + adoption are exercised by the correspondence run and treated in C06",
                         "batch ids non-zero (snowflake ids are positive); file-system calls do not fail"],
+    },
+    "C14": {
+        "corr": lambda tier, seed: corr_engine("C14", tier, seed, "restarts,batches,merges,bigvals", 60, 1500, ops=25,
+                                               dflags=NOEV, oracle_props=["C14"], extra="-variants 3"),
+        "assumptions": ["the engine model has no index type / shard count parameter: every real configuration is compared with the same model run, and the lock-step variants with each other",
+                        "byte-identical file layout across sync strategy / I/O type is not proved; layouts are compared with the model (positions, file sizes) in the C17/C11 checks"],
+    },
+    "C17": {
+        "corr": lambda tier, seed: corr_engine("C17", tier, seed, "restarts,batches,merges,bigvals", 120, 3000, ops=30,
+                                               dflags="-noevents", oracle_props=["C17"]),
+        "assumptions": ["the size equation is proved for merge-free histories with restarts and for histories with merges without restart; the adopting restart (hint path) and the file-size limit are covered by the correspondence run (Stat, positions and file sizes compared with the model at every step) and the oracle",
+                        "oracle on the implementation: Stat.KeyNum = live keys, 0 <= Reclaimable <= DiskSize, DiskSize - Reclaimable = sum of the sizes of the live positions, DataFileNum = open files"],
     },
     "C05": {
         "corr": lambda tier, seed: corr_engine("C05", tier, seed, "batches,restarts,bigvals", 120, 3000, ops=30,
